@@ -7,7 +7,7 @@
 #define PATH_REQ \
   __CPROVER_requires(verif_exc == 0) \
   __CPROVER_requires(__CPROVER_is_fresh(filename, sizeof(vstr))) \
-  __CPROVER_requires(filename->size <= filename->cap && filename->cap <= 0x10000000000ull) \
+  __CPROVER_requires(filename->size <= filename->cap && filename->cap <= 0x10000000000ull && filename->size == g_plen) \
   __CPROVER_requires(__CPROVER_is_fresh(filename->data, filename->cap)) \
   __CPROVER_requires(g_ls == C14_NPOS || (g_ls < filename->size && filename->data[g_ls] == '/')) \
   __CPROVER_requires((g_pk < filename->size && (g_ls == C14_NPOS || g_pk > g_ls)) ==> filename->data[g_pk] != '/') \
